@@ -295,6 +295,9 @@ func checkC12(c *Ctx) error {
 	slowMu <- struct{}{}
 	Par(len(jobs), 16, func(i int) {
 		j := jobs[i]
+		if work.ToolTimeouts() > 40 {
+			return // the tree hangs on many inputs: enough witnesses, do not wait for thousands of watchdogs
+		}
 		dir := w.TempDir("c12")
 		run := exec1(j, dir)
 		durs[i] = run.Res.Dur
@@ -333,6 +336,9 @@ func checkC12(c *Ctx) error {
 		}
 	})
 	// slow runs: a hang only counts when it reproduces twice alone
+	if len(slow) > 6 {
+		slow = slow[:6]
+	}
 	for _, i := range slow {
 		j := jobs[i]
 		again := 0
@@ -347,7 +353,7 @@ func checkC12(c *Ctx) error {
 			files[fmt.Sprintf("input/f%d.yaml", k)] = f
 		}
 		if again == 2 {
-			c.Violate("hang", fmt.Sprintf("%s input: the run exceeds 20s (normal: ~15ms) three times in a row", j.kind), files)
+			c.Violate("hang", fmt.Sprintf("%s input: the run was stopped by the watchdog three times in a row (normal run time: ~15ms)", j.kind), files)
 		} else {
 			c.Add("slow_runs_not_reproduced", 1)
 		}
